@@ -50,3 +50,6 @@ pub mod c07_pools;
 pub mod c03_blobstore;
 pub mod c09_intvec;
 pub mod c19_files;
+pub mod c05_trie;
+pub mod c06_hashmap;
+pub mod c17_cache;
